@@ -102,7 +102,7 @@ theorem pool_eq : unet2d_pool = [(UnetP.std.pk : Int), UnetP.std.ps, 0] ∧ unet
     multidomain_pool = [(UnetP.std.pk : Int), UnetP.std.ps, 0] := by decide
 
 /-- Conv2dGRU block `idx`: the model's `gruBlock` uses exactly the translated kernel / dilation / padding expressions
-(including the zero-padding expression that ignores the dilation of block 1) -/
+(zero padding `2 if idx in (0, 1) else 1` after the repair) -/
 theorem gru_block_eq (idx : Nat) :
     gruBlock false idx = [.conv (gru_kernel idx).toNat 1 (gru_padding 0 idx).toNat (gru_dilation idx).toNat] ∧
       gruBlock true idx = [.replPad (gru_repl_pad idx).toNat,
